@@ -556,12 +556,172 @@ def pick_any(rng, n):
     return out
 
 
+# ------------------------------------------------------------------ systematic covering generator
+#
+# The quantifier of C01 / C02 / C12 runs over configurations; the planner of _soxr_init takes a different path for nearly
+# every ratio class and several knobs of the quality spec are consumed by one stage only.  The covering generator therefore
+# works on what the REAL planner answers (the exported plan), not on a hand-written ratio list: a seeded candidate pool
+# (ratio x recipe x knob variant x engine) is planned by the library, every candidate is labelled with its plan class and
+# its knob, and one member per (plan class, knob) pair is drawn - cheap members preferred, rotating with the seed.
+
+def _p2(x):
+    return x > 0 and (x & (x - 1)) == 0
+
+
+def stage_tag(s):
+    """Planner path of one stage: half-band / dft stage with F-domain (power-of-two) or time-domain (zero stuffing,
+    decimation loop) rate change, the decimation grid aligned to the block length or not / poly-phase order / cubic."""
+    k = s["kind"]
+    if k != "dft":
+        return k
+    L, M, st = s["L"], s["M"], s.get("dftStep", s["M"])
+    t = []
+    if L > 1:
+        t.append(("Fup" if _p2(L) else "Tup") + ("8+" if L >= 8 else str(L)))
+    if st < 0:
+        t.append("Fdn%d" % M)
+    elif st > 1:
+        t.append("Tdn%d%s" % (M, "" if s["blockLen"] % M == 0 else "u"))      # u: block_len % M != 0
+    return "dft[" + ",".join(t) + "]"
+
+
+def plan_class(info):
+    tags = [stage_tag(s) for s in info["stages"]]
+    nh = tags.count("half")
+    rest = [t for t in tags if t != "half"]
+    return (("half%s+" % ("" if nh == 1 else "*n")) if nh else "") + ("+".join(rest) if rest else ("" if nh else "none"))
+
+
+def f1_exact(info):
+    """The signature of known finding F1 as known_findings.json states it: a dft stage with power-of-two L whose block
+    length is not a multiple of L (only produced for phase_response != 50, L >= 8)."""
+    return any(s["kind"] == "dft" and s["L"] > 1 and _p2(s["L"]) and s["blockLen"] % s["L"] != 0 for s in info["stages"])
+
+
+def fph1_signature(info):
+    """Known finding F-PH1 (known_findings.d/phase.json): precision >= 28, 0 < min(phase, 100-phase) <= 25, a dft stage
+    with fewer than 256 taps."""
+    ph = info["q"]["phase"]
+    return bits_of(info) >= 28 and 0 < min(ph, 100 - ph) <= 25 and any(s["kind"] == "dft" and s["numTaps"] < 256 for s in info["stages"])
+
+
+def _coprime_pairs(n):
+    return [(a, b) for a in range(1, n + 1) for b in range(1, n + 1) if math.gcd(a, b) == 1 and (a, b) != (1, 1)]
+
+
+# ratios of the covering pool, cheap (small implementation period) ones first
+COVER_RATIOS = (_coprime_pairs(12) +
+                [(16, 1), (32, 1), (64, 1), (24, 1), (48, 1), (20, 1), (40, 3), (16, 3), (32, 3), (16, 9), (17, 10), (16, 5), (20, 3), (13, 3), (27, 2),
+                 (1, 16), (1, 32), (1, 64), (1, 128), (1, 24), (1, 20), (1, 40), (3, 16), (3, 32), (3, 64), (1, 48), (5, 64), (3, 40), (1, 256)] +
+                [(44100, 48000), (48000, 44100), (88200, 48000), (80000, 44100), (96000, 44100), (44100, 96000), (8000, 44100), (44100, 8000),
+                 (44100, 192000), (192000, 44100), (11025, 96000), (48000, 8000), (8000, 48000)])
+COVER_IRRATIONAL = [(3.14159, 1), (1, 3.14159), (2.71828, 1), (1, 2.71828), (1.41421356, 1), (1, 1.41421356), (1.0001, 1), (1, 1.0001),
+                    (65537, 44100), (44100, 65537), (48000, 44101), (10.3, 1), (1, 20.7), (37.1, 1), (1.7320508, 1), (1.9099, 1), (1.5557, 1),
+                    (1.8375001, 1), (1, 5.0001), (1, 9.87), (1, 41.3), (6.99, 1), (3.3333, 1), (1, 1.2599), (5.00001, 2)]
+COVER_RECIPES = [(1, 0), (2, 0), (3, 0), (4, 0), (5, 0), (6, 0), (7, 0), (8, 0), (9, 0), (10, 0), (4 | 0x40, 0), (6 | 0x40, 0), (3 | 0x40, 0), (5 | 0x40, 0)]
+KNOBS_SPECTRAL = ["base", "ph0", "ph25", "ph75", "ph100", "sb<1", "sb>1", "pb", "roll", "prec"]
+_PHASE_BITS = {0: 0x30, 25: 0x10, 100: 0x20}
+
+
+def apply_knob(rng, c, knob):
+    """One knob of the quality spec moved inside its documented range (soxr.h / _soxr_init's validation)."""
+    c = dict(c)
+    down = float(c["ir"]) > float(c["orr"])
+    if knob.startswith("ph"):
+        v = int(knob[2:])
+        if v in _PHASE_BITS and rng.below(2):
+            c["recipe"] = (c["recipe"] & ~0x30) | _PHASE_BITS[v]          # the recipe's phase flags
+        else:
+            c["phase"] = float(v)                                          # the public field
+    elif knob == "sb<1":
+        c["pb"] = round(rng.uniform(0.62, 0.86), 4)
+        c["sb"] = round(min(0.985, c["pb"] + rng.uniform(0.05, 0.22)), 4)
+    elif knob == "sb>1":
+        c["sb"] = round(rng.uniform(1.01, 1.14), 4)
+        # aliasing / imaging is admitted above 2 - stopband_begin: the pass-band has to end below it (up-sampling: enforced by
+        # _soxr_init, "imaging greater than rolloff"; down-sampling: the same reading of the configuration, see assumptions)
+        c["pb"] = round(rng.uniform(max(0.62, c["sb"] - 0.45), 2 - c["sb"] - 0.003), 4)
+    elif knob == "pb":
+        c["pb"] = round(rng.uniform(0.60, 0.975), 4)
+    elif knob == "roll":
+        cur = soxr_rolloff(c)
+        c["qflags"] = (c.get("qflags", 0) & ~3) | rng.choice([r for r in (0, 1, 2) if r != cur])
+    elif knob == "prec":
+        c["prec"] = round(rng.uniform(15.0, 33.0), 2)
+    return c
+
+
+def soxr_rolloff(c):
+    q = c["recipe"] & 0xf
+    if q <= 2:
+        return 1
+    if q == 10:
+        return 3
+    return c.get("qflags", 0) & 3
+
+
+def job_planinfo(c):
+    try:
+        info, _ = run(c)
+        return info
+    except Exception as e:
+        return {"error": "harness: " + str(e)[:200]}
+
+
+def cover(rng, knobs, ratios, per_ratio=2, members=3, max_period=64, engines=(0, 1), extra_filter=None):
+    """Seeded covering set.  Returns (selection, stats): selection = list of dicts {"class", "knob", "members": [cfg, ...]}
+    with up to `members` alternative configurations per (plan class, knob) pair (cheapest implementation periods first, the
+    order among comparably cheap ones drawn from rng); stats = what the pool contained."""
+    cands = []
+    for (ir, orr) in ratios:
+        for knob in knobs:
+            for _ in range(per_ratio):
+                rec, qf = rng.choice(COVER_RECIPES)
+                c = mkcfg(ir, orr, rec, qf, simd=rng.choice(list(engines)))
+                if rng.below(8) == 0:
+                    c["qflags"] = qf | 16                                  # SOXR_DOUBLE_PRECISION
+                c = apply_knob(rng, c, knob)
+                cands.append((knob, c, rng.next()))
+    infos = pool_map(job_planinfo, [c for _, c, _ in cands], chunksize=32)
+    groups = {}
+    n_err = 0
+    for (knob, c, tie), info in zip(cands, infos):
+        if "error" in info or not info.get("engine", "").startswith("cr") or not info["stages"]:
+            n_err += "error" in info
+            continue
+        if extra_filter and not extra_filter(c, info):
+            continue
+        per = plan_period(info)
+        fr = Fraction(c["orr"]).limit_denominator(1 << 20) / Fraction(c["ir"]).limit_denominator(1 << 20)
+        if per is not None and per[0] * fr.denominator == per[1] * fr.numerator:
+            cost = max(per)
+            if cost > max_period:
+                continue
+        else:
+            cost = 1
+        groups.setdefault((plan_class(info), knob), []).append((cost, tie, c))
+    sel = []
+    for key in sorted(groups):
+        g = sorted(groups[key], key=lambda t: (t[0], t[1]))
+        lo = g[0][0]
+        cheap = [t for t in g if t[0] <= 2 * lo + 2]
+        cheap.sort(key=lambda t: t[1])                                     # rotate among comparably cheap members
+        rest = [t for t in g if t[0] > 2 * lo + 2]
+        sel.append({"class": key[0], "knob": key[1], "members": [t[2] for t in (cheap + rest)[:members]], "pool": len(g)})
+    return sel, {"candidates": len(cands), "create_errors": n_err, "pairs": len(sel), "classes": len(set(k[0] for k in groups))}
+
+
 # ------------------------------------------------------------------ pool jobs (top level: picklable)
 
 def job_rows(args):
     c, max_phases = args[0], args[1]
     max_cost = args[2] if len(args) > 2 else 8e6
     try:
+        info0, _ = run(c)
+        if "error" not in info0 and info0.get("engine", "").startswith("cr") and f1_exact(info0):
+            # F1 also over-delivers and can crash at flush (DESIGN section 6): no signal is sent through such a plan here
+            return {"cfg": c, "label": cfg_label(c), "skipped": "known finding F1 signature (dft stage with power-of-two L not dividing block_len)",
+                    "plan": plan_signature(info0), "f1": True}
         R = measure_rows(c, max_phases, max_cost)
         if isinstance(R, dict):
             d = {"cfg": c, "label": cfg_label(c), "skipped": R["skipped"]}
@@ -569,9 +729,6 @@ def job_rows(args):
                 d["plan"] = plan_signature(R["info"])
                 d["designed_ok"] = designed_ok(R["info"])
             return d
-        if f1_signature(R.info):
-            return {"cfg": c, "label": cfg_label(c), "skipped": "known finding F1 signature (non-linear phase + power-of-two-L DFT stage, L >= 8)",
-                    "plan": plan_signature(R.info)}
         pm = passband_metrics(R)
         sm = stopband_metrics(R)
         return {"cfg": c, "label": cfg_label(c), "engine": R.info["engine"], "plan": plan_signature(R.info), "LP": R.LP, "MP": R.MP,
@@ -592,7 +749,7 @@ def job_tone(args):
             return {"cfg": c, "label": cfg_label(c), "skipped": "create failed: " + info["error"]}
         if not info.get("engine", "").startswith("cr") or bits_of(info) < 15:
             return {"cfg": c, "label": cfg_label(c), "skipped": "property does not speak (precision < 15 bits)"}
-        if f1_signature(info):
+        if f1_exact(info):
             return {"cfg": c, "label": cfg_label(c), "skipped": "known finding F1 signature"}
         d = tone_job(c, **kw)
         d.update(cfg=c, label=cfg_label(c), kw=kw, class_db=gain_class_db(info), pb=info["q"]["pb"], sb=info["q"]["sb"])
@@ -602,14 +759,14 @@ def job_tone(args):
         return {"cfg": c, "label": cfg_label(c), "kw": kw, "error": traceback.format_exc()[-1500:]}
 
 
-def pool_map(fn, jobs, workers=None):
+def pool_map(fn, jobs, workers=None, chunksize=1):
     from concurrent.futures import ProcessPoolExecutor
     if not jobs:
         return []
     workers = workers or min(common.NCPU, 16)
     harness()            # build once, in the parent
     with ProcessPoolExecutor(workers) as ex:
-        return list(ex.map(fn, jobs, chunksize=1))
+        return list(ex.map(fn, jobs, chunksize=chunksize))
 
 
 def ratio_margin(x, lim):
